@@ -9,7 +9,7 @@ Lemma mk_record_sge_irrelevant start ref alt g r :
   exists r0, mk_record start ref alt None = Ok r0 /\ vr_pos r = vr_pos r0 /\ vr_ref r = vr_ref r0 /\ vr_alt r = vr_alt r0.
 Proof.
   unfold mk_record. destruct (from_partial_start start ref alt) as [s|]; cbn [bind]; [|discriminate].
-  destruct (negb (zlen (get_vcf_allele g s) =? zlen (get_vcf_allele ref s))); cbn [bind]; [discriminate|].
+  cbn [bind].
   destruct (is_nil (get_vcf_allele ref s) || is_nil (get_vcf_allele alt s)); [discriminate|].
   intros H. injection H as <-. eexists. split; [reflexivity|]. cbn. auto.
 Qed.
